@@ -1,6 +1,7 @@
 //! Correspondence harness: generates cases, runs the real crates (built from /repo's working
 //! tree) in-process and prints one protocol line per case (input + the implementation's
 //! canonicalised output) for the Lean driver.  See /verif/DESIGN.md section 5.
+mod c17;
 mod c20;
 mod rng;
 
@@ -54,7 +55,20 @@ fn main() {
     }
     let stdout = std::io::stdout();
     let mut out = std::io::BufWriter::with_capacity(1 << 20, stdout.lock());
+    if let Some(line) = opts.replay.clone() {
+        match prop.as_str() {
+            "C17" => c17::replay(&line, &mut out),
+            "C20" => c20::replay(&line, &mut out),
+            _ => {
+                eprintln!("no replay for {prop}");
+                std::process::exit(2);
+            }
+        }
+        out.flush().unwrap();
+        return;
+    }
     match prop.as_str() {
+        "C17" => c17::run(&opts, &mut out),
         "C20" => c20::run(&opts, &mut out),
         _ => {
             eprintln!("unknown property {prop}");
